@@ -25,6 +25,45 @@ func runC05(r *Run) {
 	r.rule("C05.R7", "role-typed address arguments (AVS vs operator) are not swapped at calls with both roles", 12)
 	r.rule("C05.R8", "the recomputed per-operator values are written back by the iterator helper", 1)
 	iteratorWriteBackRule(r, "C05.R8", map[string]bool{"IterateOperatorsForAVS": true})
+	r.rule("C05.R9", "the oracle token of an asset is found by exact match against the elements of the token's asset list", 1)
+	if tv := w.View("x/oracle/types", "Params.GetTokenIDFromAssetID"); tv == nil {
+		r.bad("C05.R9", "anchor|GetTokenIDFromAssetID", "-", "anchor", "not found")
+	} else {
+		r.saw(tv.ID())
+		p0 := paramName(tv, 0)
+		okAll, n := true, 0
+		ast.Inspect(tv.Decl.Body, func(nd ast.Node) bool {
+			rs, isRet := nd.(*ast.ReturnStmt)
+			if !isRet || len(rs.Results) != 1 {
+				return true
+			}
+			if cv := tv.constOf(rs.Results[0]); cv != nil && cv.ExactString() == "0" {
+				return true // "not found"
+			}
+			n++
+			exact := false
+			for _, f := range tv.FactsAt(rs, false) {
+				if c, ok := factCmp(f); ok && c.Op == "==" && exprString(c.R) == p0 {
+					// the compared value is an element of strings.Split(token.AssetID, ",")
+					if lp, isLoop := tv.innermostLoop(rs).(*ast.RangeStmt); isLoop && tv.objOf(c.L) != nil && tv.objOf(c.L) == tv.objOf(lp.Value) {
+						for _, d := range tv.resolveDefs(lp.X, 0) {
+							if name, args, isC := funcCallName(d); isC && name == "Split" && len(args) == 2 && lastField(args[0]) == "AssetID" {
+								exact = true
+							}
+						}
+					}
+					if lastField(c.L) == "AssetID" {
+						exact = true // single-asset form: token.AssetID == assetID
+					}
+				}
+			}
+			if !exact {
+				okAll = false
+			}
+			return true
+		})
+		r.check(okAll && n >= 1, "C05.R9", "price|exact-asset-match", tv.pos(tv.Decl), "an asset is priced with the token whose asset list contains exactly that asset id", "GetTokenIDFromAssetID returns a token without an equality match of the asset id against an element of the token's asset list (a substring/prefix match prices an asset with another token's price)")
+	}
 
 	// ---- R1
 	if v := w.View("x/operator/keeper", "CalculateUSDValue"); v == nil {
